@@ -257,9 +257,12 @@ OVERLAP2 = "b *\n    c %cant_delete=1 %prio=1\n    n * %prio=1\n        c\n    ~
 PRIO_SLOTS = [S(["p X", "p Y"], [S(["m"]), S(["dd z"])]),
               S(["b 1"], [S(["n 1"], [S(["c"]), S(["q"])]), S(["undo c"])]), S(["b 2"], [S(["n 1"], [S(["c"]), S(["q"])])])]
 NPT = count(PRIO_SLOTS)
-NPRIO = 8 * 6 * NPT
+NPRIO = 8 * 7 * NPT
 PLO, PHI = rt.shard_range(NPRIO)
-PB = [0, 0b000001, 0b000010, 0b1000000, OVERLAP, OVERLAP2]
+# a %global rule that ties with the local block rule `b *` (same %prio, same share of the row's symbols in the pattern):
+# the local rule is the first of the equals, so its children rules still apply
+TIE = "b ~ %global\n"
+PB = [0, 0b000001, 0b000010, 0b1000000, OVERLAP, OVERLAP2, TIE]
 
 
 def h_prio(case: int) -> bool:
@@ -269,7 +272,7 @@ def h_prio(case: int) -> bool:
     """
     c = pick(case, PHI, PLO)
     with NoTracing():
-        ai, bi, ti = digits(c, [8, 6, NPT])
+        ai, bi, ti = digits(c, [8, len(PB), NPT])
         ta = acl_text(0b1000000 | ai)
         tb = PB[bi] if isinstance(PB[bi], str) else acl_text(PB[bi])
         ok, detail, kind, nt = check_filter(ta, tb, unrank(PRIO_SLOTS, ti))
@@ -328,7 +331,8 @@ def z_compiled():
     dom = rx.row_domain()
     fails = 0
     texts = [[("ga", acl_of(i))] for i in range(0, NACL, 5)] + [[("ga", acl_text(0b1000000 | i))] for i in range(8)] + \
-            [[("ga", acl_of(a)), ("gb", acl_of(b))] for (a, b) in DEEP_PAIRS] + [[("ga", acl_text(0b000010)), ("gb", OVERLAP)]]
+            [[("ga", acl_of(a)), ("gb", acl_of(b))] for (a, b) in DEEP_PAIRS] + [[("ga", acl_text(0b000010)), ("gb", OVERLAP)]] + \
+            [[("ga", "undox *\nundone\nb *\n    undock\n    undo c\n")], [("ga", acl_text(0b000010)), ("gb", TIE)]]
     lo, hi = rt.shard_range(len(texts))
     cache = {}
 
